@@ -115,7 +115,7 @@ func classifyCompile(msgs []string) (string, string) {
 					if nm := reRedeclName.FindStringSubmatch(stripPos(m)); nm != nil {
 						switch {
 						case reLocalName.MatchString(nm[1]) && !strings.HasPrefix(nm[1], "fieldIDToName_") && !strings.HasPrefix(nm[1], "annotations_") && !strings.Contains(nm[1], "Processor"):
-							return "redeclared-param", m
+							return "redeclared-local", m
 						case reRenamedName.MatchString(nm[1]):
 							return "redeclared-renamed", m
 						}
